@@ -2,3 +2,5 @@ import Vore.Model.Basic
 import Vore.Model.Process
 import Vore.Props.C20
 import Vore.Model.Lexer
+import Vore.Props.C08parse
+import Vore.Props.C15parse
